@@ -62,6 +62,8 @@ def present_x(spec, item, container, names=None):
     """item: row (stream) or list of rows (batch) -> fresh object of the given container kind"""
     arr = np.array([item] if spec.family == "stream" else item, dtype=float)
     names = names or NAMES[: arr.shape[1]]
+    if not isinstance(names, str):
+        names = list(names)[: arr.shape[1]]
     if container.endswith("_int"):
         # the same (integral) values carried by an integer dtype / python ints
         if not np.array_equal(arr, np.round(arr)):
@@ -71,6 +73,8 @@ def present_x(spec, item, container, names=None):
     if container == "nd2":
         return arr
     if container == "df":
+        if isinstance(names, str) and names == "default":
+            return pd.DataFrame(arr)  # pandas' default labels 0..d-1
         return pd.DataFrame(arr, columns=names)
     if container == "list2":
         return arr.tolist()
@@ -109,10 +113,10 @@ def do_call(spec, det, obj, first, seed):
     return det.update(obj)
 
 
-def make_obj(spec, item, cont):
+def make_obj(spec, item, cont, naming="named"):
     if spec.kind == "y":
         return (present_y(item[0], cont[0]), present_y(item[1], cont[1]))
-    return present_x(spec, item, cont)
+    return present_x(spec, item, cont, names=("default" if naming == "default" else None))
 
 
 def build_fault(spec, case, ncols):
@@ -129,12 +133,15 @@ def build_fault(spec, case, ncols):
         rows = np.hstack([rows, rows[:, :1]])
     if kind == "cols-":
         rows = rows[:, :-1]
-    names = NAMES[: rows.shape[1]]
+    naming = case.get("df_naming", "named")
+    names = NAMES[: rows.shape[1]] if naming == "named" else None
     if kind in ("rename", "rows+rename"):
         names = OTHER[: rows.shape[1]]
+    if kind == "rename_default":  # the other labelling convention: default labels vs. explicit names
+        names = None if naming == "named" else NAMES[: rows.shape[1]]
     c = f["container"]
     if c == "df":
-        return pd.DataFrame(rows, columns=names)
+        return pd.DataFrame(rows, columns=names) if names is not None else pd.DataFrame(rows)
     if c == "list2":
         return rows.tolist()
     return rows
@@ -163,7 +170,7 @@ def run(spec, case, containers, fault_pos=None, ctx=None):
             if outcome != "ValueError":
                 return trace, outcome
         if i < len(items):
-            obj = make_obj(spec, items[i], containers[i])
+            obj = make_obj(spec, items[i], containers[i], case.get("df_naming", "named"))
             if name == "NNDVI" and i > 0 and not cat.nndvi_domain_ok(det, np.array(items[i], dtype=float)):
                 return trace, outcome if outcome else "truncated"
             try:
@@ -192,7 +199,7 @@ def fault_is_legal(spec, case, containers, ncols):
         return False
     if kind in ("cols+", "cols-"):
         return pos == 0  # no width established yet
-    if kind == "rename":
+    if kind in ("rename", "rename_default"):
         # names are established by the first accepted DataFrame
         return not any(c.startswith("df") for c in containers[:pos])
     return False
@@ -323,15 +330,26 @@ def strat_fault(names):
             if spec.kind == "y":
                 fault = {"kind": "y_multi", "which": draw(st.sampled_from(["y_true", "y_pred"])), "container": draw(st.sampled_from(["list1", "nd1"])), "pos": pos}
             else:
-                kinds = ["rows", "cols+", "rename", "rows+cols", "rows+rename"]
+                kinds = ["rows", "cols+", "rename", "rename_default", "rows+cols", "rows+rename"]
                 if ncols >= 2:
                     kinds.append("cols-")
                 if spec.univariate:
-                    kinds = ["rows", "multi_uni", "multi_uni", "rename", "rows+rename", "rows+cols"]
+                    kinds = ["rows", "multi_uni", "multi_uni", "rename", "rename_default", "rows+rename", "rows+cols"]
                 kind = draw(st.sampled_from(kinds))
                 cont = "df" if "rename" in kind else draw(st.sampled_from(["nd2", "df", "list2"]))
                 fault = {"kind": kind, "container": cont, "pos": pos}
-            return {"det": name, "params": p, "ncols": ncols, "items": items, "containers": containers, "fault": fault, "seed_base": draw(vs.seed_base)}
+            out = {"det": name, "params": p, "ncols": ncols, "items": items, "containers": containers, "fault": fault, "seed_base": draw(vs.seed_base)}
+            if spec.kind != "y":
+                out["df_naming"] = draw(st.sampled_from(["named", "named", "default"]))
+                if name != "PCACD" and draw(st.integers(0, 2)) == 0:
+                    # the first few items hold integral values and arrive as integers (python ints / integer dtype),
+                    # later ones are fractional floats
+                    k = draw(st.integers(1, min(3, len(items))))
+                    for i in range(k):
+                        items[i] = [float(round(v)) for v in items[i]] if spec.family == "stream" else [[float(round(v)) for v in r] for r in items[i]]
+                        if not containers[i].endswith("_int"):
+                            containers[i] = containers[i] + "_int"
+            return out
 
         return s()
 
@@ -383,7 +401,7 @@ def enum_grid(tier, shard, nshards):
             faults = [{"kind": "y_multi", "which": w, "container": c} for w in ("y_true", "y_pred") for c in ("list1", "nd1")]
             schemes = {"scalar": [["scalar", "scalar"]] * L, "mixed": [[["scalar", "list1", "nd1", "nd2", "series"][(i + a) % 5] for a in (0, 2)] for i in range(L)]}
         else:
-            kinds = ["rows", "multi_uni", "rename", "rows+rename", "rows+cols"] if spec.univariate else ["rows", "cols+", "cols-", "rename", "rows+cols", "rows+rename"]
+            kinds = ["rows", "multi_uni", "rename", "rename_default", "rows+rename", "rows+cols"] if spec.univariate else ["rows", "cols+", "cols-", "rename", "rename_default", "rows+cols", "rows+rename"]
             faults = [{"kind": kd, "container": c} for kd in kinds for c in (["df"] if "rename" in kd else ["nd2", "df", "list2"])]
             schemes = {"nd2": ["nd2"] * L, "df": ["df"] * L, "list2": ["list2"] * L}
             if ncols == 1 or spec.family == "stream":
@@ -396,11 +414,16 @@ def enum_grid(tier, shard, nshards):
                     sch["nd2-then-df"] = ["nd2"] * pos + ["df"] * (L - pos)
                     sch["df-then-nd2"] = ["df"] * max(1, pos // 2) + ["nd2"] * (L - max(1, pos // 2))
                 for sname, containers in sch.items():
-                    if k % nshards == shard:
-                        ff = dict(f)
-                        ff["pos"] = pos
-                        yield {"det": name, "params": GRID_PARAMS[name], "ncols": ncols, "items": items, "containers": containers, "fault": ff, "seed_base": 7, "scheme": sname}
-                    k += 1
+                    namings = ["named"] if (spec.kind == "y" or "df" not in "".join(map(str, containers))) else ["named", "default"]
+                    for naming in namings:
+                        if k % nshards == shard:
+                            ff = dict(f)
+                            ff["pos"] = pos
+                            c = {"det": name, "params": GRID_PARAMS[name], "ncols": ncols, "items": items, "containers": containers, "fault": ff, "seed_base": 7, "scheme": sname}
+                            if spec.kind != "y":
+                                c["df_naming"] = naming
+                            yield c
+                        k += 1
 
 
 def _desc(c):
@@ -418,7 +441,7 @@ PROPERTY = {
         "For each of the 14 Streaming/Batch detectors: a short valid history (3-30 calls, batch detectors start with set_reference) whose "
         "items are presented in drawn containers (scalar / list / 1-D / 2-D ndarray / Series / DataFrame as far as the shape allows, in runs "
         "with switches; a quarter of the histories hold integral values and may also be presented with integer dtypes / python ints) and ONE malformed call injected at a drawn position 0..len: wrong row count, wrong column count (+1/-1, as ndarray, "
-        "list or DataFrame), renamed DataFrame columns, wrong rows combined with another width / other names, multi-column data to a "
+        "list or DataFrame), renamed DataFrame columns (other explicit names, or pandas' default labels vs. explicit names), wrong rows combined with another width / other names, multi-column data to a "
         "univariate detector, y with two observations. Oracles: (i) the malformed call raises ValueError (inputs that are legal because "
         "nothing is established yet must be accepted); (ii) the observations after every accepted call equal those of the run without the "
         "malformed call (rejected call seeded like the next accepted one); (iii) the run with the drawn containers equals the run with plain "
